@@ -345,6 +345,12 @@ class CFG:
             return d
         if isinstance(e, (ast.Constant, ast.Name)):
             return d
+        if isinstance(e, ast.BinOp) and isinstance(e.op, ast.Mod) and not (isinstance(e.left, ast.Constant) and isinstance(e.left.value, (int, float))) and not (isinstance(e.right, ast.Constant) and isinstance(e.right.value, (int, float))):
+            # `text % values` renders the values (their __str__ / __repr__ / __format__ run, mismatches raise): a raising operation
+            d = self._expr(e.left, d)
+            d = self._expr(e.right, d)
+            n = self._emit("render", e, d, frozenset({ANY}))
+            return [(n, "")]
         if isinstance(e, ast.Subscript) and isinstance(e.ctx, ast.Load):
             d = self._expr(e.value, d)
             d = self._expr(e.slice, d)
